@@ -67,7 +67,11 @@ def gen_grammars(prop, tier, n, profile):
         st = gg.grammar_stream(rnd, want_lr1=0.9)
         while len(out) < n:
             g, tb = next(st)
-            add(gg.decorate(g, rnd, regexes=(0.35 if rnd.random() < 0.5 else 0)))
+            g = gg.decorate(g, rnd, regexes=(0.35 if rnd.random() < 0.5 else 0))
+            if rnd.random() < 0.3:
+                h = gg.add_bag_list(g, rnd)
+                if h is not None and gg.classify(ref_lr1.build(h)) in ('lr1', 'sr'): g = h
+            add(g)
     elif profile == 'values':     # C14: decorated + error rules + move-only instantiations
         for g in gg.err_core(): add(gg.decorate(g, rnd, strings=0))
         st = gg.grammar_stream(rnd, want_lr1=0.9)
@@ -79,6 +83,9 @@ def gen_grammars(prop, tier, n, profile):
             if rnd.random() < 0.3:
                 g.vtypes = ['M'] * len(g.nts); g.tvtype = 'M'
                 g.rules = [gg.Rule(r.lhs, r.rhs, r.prec, 'f') for r in g.rules]
+            elif rnd.random() < 0.3:
+                h = gg.add_bag_list(g, rnd, copying=False)
+                if h is not None: g = h
             tb = ref_lr1.build(g)
             if gg.classify(tb) in ('rr', 'acc'): continue
             add(g)
